@@ -20,6 +20,7 @@ CONSTANTS
   EmitAllUpTo = 0
   Sel = 150
   CondSel = 12
+  AltMode = 0
   KeepGoing = TRUE
 INVARIANT Inv
 CHECK_DEADLOCK FALSE
